@@ -6,6 +6,30 @@
 
 include!(concat!(env!("OUT_DIR"), "/glue.rs"));
 
+/// The table's count of occupied slots (`usize::MAX` when the implementation no longer exposes one).
+#[cfg(verif_tt_occupied)]
+#[macro_export]
+macro_rules! tt_occ {
+    ($t:expr) => {
+        ($t.occupied as usize)
+    };
+}
+#[cfg(not(verif_tt_occupied))]
+#[macro_export]
+macro_rules! tt_occ {
+    ($t:expr) => {{
+        let _ = &$t;
+        usize::MAX
+    }};
+}
+/// "No slot is occupied" by the counter if there is one, by the fill indicator otherwise.
+#[macro_export]
+macro_rules! tt_empty {
+    ($t:expr) => {
+        (if $crate::tt_occ!($t) == usize::MAX { ($t.occupancy() as usize) == 0 } else { $crate::tt_occ!($t) == 0 })
+    };
+}
+
 #[path = "../../tvc/src/util.rs"]
 mod util;
 #[path = "../../tvc/src/report.rs"]
@@ -305,7 +329,7 @@ fn run_script(script: &[u8], abstract_states: &Mutex<BTreeSet<String>>) {
                 if verif_hooks::CHECK_FRESH.with(|c| c.get()) {
                     let ps = u.verif_persistent_state().clone();
                     let g = ps.lock().unwrap();
-                    assert!((g.tt.occupied as usize) == 0 && (g.tt.occupancy() as usize) == 0, "ucinewgame returned but the shared tables were not reset ({} entries left)", (g.tt.occupied as usize));
+                    assert!(crate::tt_empty!(g.tt) && (g.tt.occupancy() as usize) == 0, "ucinewgame returned but the shared tables were not reset ({} entries left)", crate::tt_occ!(g.tt));
                 }
                 assert!(u.verif_run_line(pos).unwrap());
             }
@@ -320,7 +344,7 @@ fn run_script(script: &[u8], abstract_states: &Mutex<BTreeSet<String>>) {
                 if verif_hooks::CHECK_RESIZED.with(|c| c.get()) {
                     let ps = u.verif_persistent_state().clone();
                     let g = ps.lock().unwrap();
-                    assert!((g.tt.occupied as usize) == 0, "setoption name Hash value {hash_now} was sent while no bestmove was outstanding, yet the table was not resized ({} entries of the old table left, option reads {})", (g.tt.occupied as usize), u.verif_options().hash_size);
+                    assert!(crate::tt_empty!(g.tt), "setoption name Hash value {hash_now} was sent while no bestmove was outstanding, yet the table was not resized ({} entries of the old table left, option reads {})", crate::tt_occ!(g.tt), u.verif_options().hash_size);
                 }
             }
             b'F' | b'D' | b'G' => {
